@@ -215,6 +215,6 @@ Untag(n, h) ==
        [] n.t = h.obj -> "PVLObject" [] OTHER -> n.t, n.s, kids)
 RetagChangesNothingElse == phase = "laid" => \A h \in Hooks : Untag(Retag(Tree, h), h) = Tree
 EmitCase == (Emit /\ phase = "laid") =>
-   PrintT(ToJson([text |-> Text, tree |-> Tree, lay |-> lay, ntok |-> Len(toks),
+   PrintT(ToJson([text |-> Text, tree |-> Tree, lay |-> lay, ntok |-> Len(toks), toks |-> [k \in 1..Len(toks) |-> toks[k].t],
                   rt |-> IF Profile = "hooks" THEN [h \in {x.id : x \in Hooks} |-> Retag(Tree, CHOOSE x \in Hooks : x.id = h)] ELSE <<>>]))
 =============================================================================
